@@ -59,11 +59,18 @@ fn u64_classes() -> impl Strategy<Value = u64> {
 
 /// near-valid traceparents: a canonical string with generated mutations
 fn near_valid() -> impl Strategy<Value = (String, u32)> {
-    (u128_classes(), u64_classes(), any::<u8>(), proptest::collection::vec((0u8..24, any::<u16>(), any::<u8>()), 0..3)).prop_map(|(t, s, f, muts)| {
+    (u128_classes(), u64_classes(), any::<u8>(), proptest::collection::vec((0u8..27, any::<u16>(), any::<u8>()), 0..3)).prop_map(|(t, s, f, muts)| {
         let mut fields: Vec<String> = vec!["00".into(), format!("{:032x}", t), format!("{:016x}", s), format!("{:02x}", f)];
         let mut sep = vec!["-".to_string(); 3];
         let n = muts.len() as u32;
+        // length-preserving replacements on the assembled text: k ASCII bytes at any byte offset
+        // (also across a separator) become one k-byte character
+        let mut post: Vec<(usize, u16, u8)> = vec![];
         for (m, a, b) in muts {
+            if m >= 24 {
+                post.push((m as usize - 22, a, b));
+                continue;
+            }
             if fields.is_empty() { break; }
             let fi = (a as usize) % fields.len();
             match m {
@@ -106,6 +113,22 @@ fn near_valid() -> impl Strategy<Value = (String, u32)> {
                 out.push_str(sep.get(i - 1).map(|s| s.as_str()).unwrap_or("-"));
             }
             out.push_str(f);
+        }
+        for (k, a, b) in post {
+            if out.len() < k {
+                continue;
+            }
+            let at = (a as usize * (out.len() - k + 1)) >> 16;
+            if !out.is_char_boundary(at) || !out.is_char_boundary(at + k) {
+                continue;
+            }
+            let ch = match k {
+                2 => ['é', 'ß', '٣', 'Ω'][(b % 4) as usize],
+                3 => ['１', '中', '–', '€'][(b % 4) as usize],
+                _ => ['😀', '𝔘', '𐍈', '🦀'][(b % 4) as usize],
+            };
+            debug_assert_eq!(ch.len_utf8(), k);
+            out.replace_range(at..at + k, &ch.to_string());
         }
         (out, n)
     })
